@@ -77,6 +77,10 @@ CHECKS = {
          'Static analysis of the raptor worker and master: every access to the worker resource map is inside `with self._rlock`; marks are guarded by a free test of the same cell and recorded in task[slots], _dealloc frees exactly those; all three result producers feed the queue whose single consumer deallocates before reporting, error and timeout paths report a non-zero code with the exception; Master._result_cb maps exit code 0 to DONE and anything else to FAILED with one hand-on per call; executable tasks are routed to the agent path, everything else to the workers, the scheduler forwards iff raptor_id and not worker and not seen; in the func/eval/exec dispatchers stdio and environment are saved before mutation and restored in finally, success returns (0, no exception), failure a non-zero code and the exception. Process-level races with the timeout path are not decided.',
          'Not decided: process-level races between _worker_proc and the timeout path.',
          'DESIGN.md section 5 / C20'),
+ 'C06': ('state-table well-formedness by constant folding, ownership of Task._state/_update, guard dominance (sticky finals, single step) with flow-sensitive operand origins, exception-edge isolation in the batch loop, replay-loop pairing',
+         'Static analysis of states.py, task.py and task_manager.py: the task state table is a linear order (contiguous non-final values, X_PENDING directly before X, finals share the maximum, stage order = pipeline order); Task._state is written only by __init__ and _update, _update is called only from the replay loop and the guarded pilot-death callback; in _update the DONE/FAILED early return and the single-step test (target - current != 1 raises) dominate the write; _task_state_progress raises on two finals before comparing values, returns empty lists without progress and builds range(current+1, target)+[target]; in the batch loop the raising calls are caught per notification, known states skipped, each passed state applied through _update and announced exactly once after the loop. Decides these guards on all paths, not the value semantics beyond them.',
+         'Trusted: pubsub invokes the state callback once per message. Not decided: what application callbacks do.',
+         'DESIGN.md section 5 / C06'),
 }
 PENDING = 'check not built yet in this round (static rules designed in DESIGN.md section 5); not claimed until the checker exists'
 NA = {}
